@@ -2047,6 +2047,17 @@ def build_xmod_case(rng):
         if not bridge:
             mol.add_edge(a1, a2)
         meta.update(xl=1, bridge=bridge)
+        # a decoy: the same two kinds of side-chain ends bonded elsewhere WITHOUT the modification - the
+        # modification mapping must not fit there (its nodes name the modification)
+        decoys = [(p, q) for p, q in pairs + [(q, p) for p, q in pairs]
+                  if not {p, q} & {i, j} and (XTYPES[seq[p]][-1], XTYPES[seq[q]][-1]) == (n1, n2)]
+        if decoys and not bridge and rng.random() < 0.6:
+            p, q = rng.choice(decoys)
+            mol.add_edge(res_locals[p][n1], res_locals[q][n2])
+            for a in (res_locals[p][n1], res_locals[q][n2]):
+                if rng.random() < 0.7:
+                    mol.nodes[a]['modifications'] = []       # the attribute is there, the modification is not
+            meta['decoy'] = True
     # ---- an atom put on ONE of the particles nothing maps to ----------------------------------------------------
     hosts = [r for r, t in enumerate(seq) if ndum[t] >= 1]
     if hosts and rng.random() < 0.8:
@@ -2170,25 +2181,18 @@ for i in range(400 if chk.thorough else 45):
         errs, info = oracle({}, mol, blocks, out, logs, rawb)
         # what the text says, independently of the parsed objects: a residue whose name is among the `|` choices
         # of a from-block gets that block's particles
-        accepted = {}
         tl = text.split('\n')
-        for q, l in enumerate(tl):
-            if l.startswith('!G') and '"resname"' in l:
-                names = l.split('"resname": "')[1].split('"')[0].split('|')
-                nb = 2 if len(TEXT_TYPES[names[0]]) > 1 else 1
-                for n in names:
-                    accepted.setdefault(n, []).append(nb)
-        # (element choices may exclude an atom: those residues are only counted)
+        # (element choices may exclude an atom: those cases are left to the general oracle)
         if not any('"element"' in l for l in tl):
-            want_n = sum(sum(accepted.get(rn, [])) for rn in seq if rn in accepted)
-            # a residue fits a from-block only when it has the block's atoms: same atom names
+            # a residue fits a from-block when its name is among the `|` choices and it has the block's atoms
+            # (the blocks are chains CA[-x[-y]]: the atoms of the block then induce the same bonds in the residue)
             want_n = 0
             for rn in seq:
-                for q, l in enumerate(tl):
+                for l in tl:
                     if l.startswith('!G') and '"resname"' in l:
                         names = l.split('"resname": "')[1].split('"')[0].split('|')
-                        if rn in names and TEXT_TYPES[rn] == TEXT_TYPES[names[0]]:
-                            want_n += 2 if len(TEXT_TYPES[rn]) > 1 else 1
+                        if rn in names and set(TEXT_TYPES[names[0]]) <= set(TEXT_TYPES[rn]):
+                            want_n += 2 if len(TEXT_TYPES[names[0]]) > 1 else 1
             if want_n != len(out):
                 errs.append(('assemble_nodes', 'the mapping text accepts the residues %r with %d particles in total, the '
                              'output has %d' % (seq, want_n, len(out))))
@@ -2232,6 +2236,8 @@ for i in range(3000 if chk.thorough else 260):
     if meta['xl']:
         chk.count('xmod_crosslink_' + ('bridged' if meta['bridge'] else 'direct')
                   + ('_edge_in_modification' if meta['tgt_edge'] else ''))
+    if meta.get('decoy'):
+        chk.count('xmod_crosslink_without_modification_elsewhere')
     if meta['dum'] and meta['ndum'] >= 2:
         chk.count('xmod_modification_on_one_of_several_spawned_particles')
     if any(has_predicate(m.block_from) for m in mods):
